@@ -21,13 +21,17 @@ pub fn plan() -> Plan {
     p.w.connect = 10;
     p.props_pm = 300;
     p.pub_alias_pm = 150;
+    // MQTT 5 subscribers with a Topic Alias Maximum: the broker's aliases towards them are allocated, freed on
+    // UNSUBSCRIBE and re-used, and a retained replay may be sent with an alias only
+    p.alias_pm = 350;
+    p.w.unsubscribe = 7;
     let mut single = p.clone();
     single.name = "c15-single";
     single.stepping = Stepping::Single;
     let profiles = vec![p, single];
     Plan {
         profiles,
-        directed: vec![],
+        directed: vec![("alias-reuse-after-unsubscribe", |h| h.alias_reuse_after_unsubscribe())],
         quick_histories: 500,
         thorough_histories: 320_000,
         s5: None,
